@@ -194,7 +194,12 @@ def sequence_twins(chk, ks, three, small=False):
     base, it1 = solve(1.0)
     compared = 0
     for k in ks:
-        sc, it2 = solve(k)
+        try:
+            sc, it2 = solve(k)
+        except Exception as e:      # noqa
+            chk.fail('solve-fails-scaled', f"the sequence ({'three-roll' if three else 'two-roll'}, size factor {small or 1}) solves when described in metres but "
+                     f"fails when every length is scaled by {k}: {type(e).__name__}: {e}", {'k': k, 'three_roll': three, 'size': small or 1})
+            return compared
         chk.cov['evaluations'] += 1
         if it1 != it2:
             chk.fail('iterations', f"iteration counts differ between the description in metres and scaled by {k}: {it1} vs {it2}", {'k': k, 'three_roll': three})
@@ -246,7 +251,7 @@ def run(chk):
     profile_twins(chk, ks_geo)
     n1 = sequence_twins(chk, ks_seq, three=False)
     n2 = sequence_twins(chk, ks_seq[:1], three=True)
-    for base in (0.1, 0.03, 0.01):
+    for base in (0.1, 0.03, 0.01, 10.0, 40.0):      # wire ... heavy sections: small products and large numbers in small units
         n1 += sequence_twins(chk, ks_seq[:1] + [100.0], three=False, small=base)
     spline_twins(chk, ks_geo)
     # fail closed: an implementation that left the translatable fragment is no longer covered by the theorem
